@@ -796,6 +796,21 @@ def drive_optimize(ck, rng, n):
             ck.check(log["ref_stop_at"] == ncalls, monitor, regime, entry, "loop_length_differs_from_first_stop", w)
             if log["ref_stop_at"] is not None:
                 ck.mark("driver.optimize/first-stop:" + "+".join(log["ref_cause"]))
+        # added by the framework owner: a second optimize() on the SAME scheduler without reset - continual() is false and stays
+        # false until reset, so the loop must not take another optimizer or scheduler step
+        if not cut and not cont_of(sched):
+            n_before, s_before = len(log["cont_before_call"]), log["sched_steps"]
+            try:
+                sched.optimize(input=inputs)
+            except Exception as e:  # noqa
+                if "runaway" not in str(e):
+                    ck.violation(monitor, regime + "/second-call", entry, "raised:" + type(e).__name__, {"exc": repr(e)[:300]})
+            ck.count(monitor, regime + "/second-call", key=(i, ck.shard, "second"))
+            ck.check(len(log["cont_before_call"]) == n_before and log["sched_steps"] == s_before and not cont_of(sched), monitor,
+                     regime + "/second-call", entry, "second_optimize_on_a_stopped_scheduler_took_steps",
+                     dict(w, optimizer_steps_in_second_call=len(log["cont_before_call"]) - n_before,
+                          scheduler_steps_in_second_call=log["sched_steps"] - s_before))
+            ck.mark("driver.optimize/second-call-on-stopped-scheduler")
         if i < 1:
             ck.sample({"driver": "StopOnPlateau.optimize", **w})
 
@@ -1014,7 +1029,7 @@ def _run(ck):
     for mon in ("tree.StopOnPlateau", "tree.ReduceToBason"):
         ck.require(f"{mon}/first-stop:budget", f"{mon}/first-stop:patience", f"{mon}/first-stop:budget+patience",
                    f"{mon}/verbose")
-    ck.require("tree.StopOnPlateau/first-stop:rejected", "tree.ReduceToBason/first-stop:tol",
+    ck.require("driver.optimize/second-call-on-stopped-scheduler", "tree.StopOnPlateau/first-stop:rejected", "tree.ReduceToBason/first-stop:tol",
                "tree.StopOnPlateau/start64", "tree.StopOnPlateau/start0.015625", "tree.StopOnPlateau/start16384",
                "reset/after-plateau-steps", "reset/after-plateau-steps/negative-first-loss",
                "random.ReduceToBason/first-stop:budget", "random.ReduceToBason/first-stop:patience",
